@@ -234,6 +234,7 @@ func (j *Join) JoinFunc(l, r *HashedTable) ([]any, error) {
 func (j *Join) ParallelJoinFunc(l, r *HashedTable) ([]any, error) {
 	var mut sync.Mutex
 	var wg sync.WaitGroup
+	var firstErr error
 	slice := make([]any, 0)
 
 	for lk, lv := range l.Keys {
@@ -249,7 +250,11 @@ func (j *Join) ParallelJoinFunc(l, r *HashedTable) ([]any, error) {
 				}
 			case !ok && err != nil:
 				{
-					panic(err)
+					mut.Lock()
+					if firstErr == nil {
+						firstErr = err
+					}
+					mut.Unlock()
 				}
 			default:
 				{
@@ -259,6 +264,9 @@ func (j *Join) ParallelJoinFunc(l, r *HashedTable) ([]any, error) {
 		}(lk, lv)
 	}
 	wg.Wait()
+	if firstErr != nil {
+		return nil, firstErr
+	}
 	return slice, nil
 }
 
@@ -320,6 +328,7 @@ func (j *Join) JoinMatchFunc(lk string, lv *map[string]any, l, r *HashedTable) (
 func (j *Join) ParallelHashJoinFunc(l, r *HashedTable) ([]any, error) {
 	var mut sync.Mutex
 	var wg sync.WaitGroup
+	var firstErr error
 	slice := make([]any, 0)
 	for lk := range l.Rows {
 		wg.Add(1)
@@ -334,7 +343,11 @@ func (j *Join) ParallelHashJoinFunc(l, r *HashedTable) ([]any, error) {
 				}
 			case !ok && err != nil:
 				{
-					panic(err)
+					mut.Lock()
+					if firstErr == nil {
+						firstErr = err
+					}
+					mut.Unlock()
 				}
 			default:
 				{
@@ -344,6 +357,9 @@ func (j *Join) ParallelHashJoinFunc(l, r *HashedTable) ([]any, error) {
 		}(lk)
 	}
 	wg.Wait()
+	if firstErr != nil {
+		return nil, firstErr
+	}
 	return slice, nil
 }
 
